@@ -31,9 +31,12 @@ def stmt_map_ops(prog):
             if "indirect" in f:
                 continue
             m = re.search(r"std::collections::HashMap::<K, V(, S(, A)?)?>::(\w+)$", cname(f))
-            if not m:
-                continue
             ga = f.get("rgargs") or f.get("gargs") or []
+            if not m:
+                # `HashMap::default()` creates the map just as `HashMap::new()` does (a `#[derive(Default)]` wrapper around the table)
+                if re.search(r"<std::collections::HashMap<K, V, S> as std::default::Default>::default$", cname(f)) and any("StatementData" in str(g) for g in ga):
+                    out.append(("new", b, bb, t))
+                continue
             if any(g == "StatementData" for g in ga):
                 out.append((m.group(3), b, bb, t))
     return out
